@@ -136,7 +136,9 @@ def check_case(case):
         hk = [list, tuple, lambda h_: np.array(h_, dtype=np.int64), lambda h_: np.array(h_, dtype=np.int32), lambda h_: np.array(h_, float)][case["cellkind"] % 5]
         name = name + ":cell as " + ckind
     label, spec = CONFIGS[case["config"]]
-    atoms = [structure.atom_entry(label="a%d" % i, atomtype=el, pos=list(pos), adp_type=adpt, adp=list(adp) if adpt == "Uani" else adp,
+    # positions as list (CIFread), float64 ndarray (PDBread) or tuple, by case parity; they must come back unchanged
+    pk = [list, lambda p_: np.array(p_, float), tuple][(case["no"] + case["config"]) % 3]
+    atoms = [structure.atom_entry(label="a%d" % i, atomtype=el, pos=pk(pos), adp_type=adpt, adp=list(adp) if adpt == "Uani" else adp,
                                   occ=occ, symmulti=g.nsymop) for i, (el, pos, adpt, adp, occ) in enumerate(spec)]
     scale = sum(occ * O.Z[el] for el, _, _, _, occ in spec) * g.nsymop
     loose = not O.dyadic(ops)
@@ -168,6 +170,9 @@ def check_case(case):
         Fm = Fof(tuple(-x for x in h))
         r.check("friedel/scale", abs(Fm - Fh.conjugate()) / scale, ftol, "%s:h=%s:friedel" % (tag, h), "F(-h) = conj F(h) without dispersion",
                 [Fh.real, -Fh.imag], [Fm.real, Fm.imag])
+    for at, (el, pos, adpt, adp, occ) in zip(atoms, spec):
+        r.require([float(x) for x in at.pos] == [float(x) for x in pos], tag + ":atom-pos-unchanged", "StructureFactor leaves the atoms' coordinates as they were",
+                  list(pos), [float(x) for x in at.pos])
     r.states = len(cache)
     r.transitions = r.evals
     return r
